@@ -54,6 +54,31 @@ impl Fail {
     }
 }
 
+impl Fail {
+    /// A panic caught around a case. The signature carries the file and a normalised message (digits and quoted
+    /// input text removed) so that one defect gives one signature.
+    pub fn from_panic(p: &util::PanicInfo) -> Self {
+        let mut class = String::new();
+        let mut in_tick = false;
+        for ch in p.msg.chars() {
+            if ch == '`' {
+                in_tick = !in_tick;
+                class.push('`');
+            } else if in_tick {
+            } else if ch.is_ascii_digit() {
+                if !class.ends_with('#') {
+                    class.push('#');
+                }
+            } else {
+                class.push(ch);
+            }
+        }
+        Fail::new("panic", format!("panic: {} at {}", p.msg, p.short_location()))
+            .with("panic_file", p.file())
+            .with("panic_class", class)
+    }
+}
+
 pub type CaseResult = Result<u64, Fail>;
 
 /// A violation found by a check: which family of cases, the case itself (replayable), the failed oracle.
@@ -86,13 +111,15 @@ pub struct Ctx {
     pub seed: u64,
     pub start: Instant,
     pub families: Mutex<Vec<FamilyStats>>,
-    pub violations: Mutex<Vec<Violation>>,
+    /// violations grouped by (family, signature): exact count + the first few cases of each group
+    pub violations: Mutex<BTreeMap<String, (u64, Vec<Violation>)>>,
     pub violation_count: AtomicU64,
     pub assumptions: Mutex<Vec<String>>,
     pub only_family: Option<String>,
 }
 
-pub const MAX_STORED_VIOLATIONS: usize = 400;
+pub const MAX_GROUPS: usize = 5000;
+pub const MAX_PER_GROUP: usize = 3;
 
 impl Ctx {
     pub fn new(property: &str, tier: Tier, seed: u64) -> Self {
@@ -102,7 +129,7 @@ impl Ctx {
             seed,
             start: Instant::now(),
             families: Mutex::new(vec![]),
-            violations: Mutex::new(vec![]),
+            violations: Mutex::new(BTreeMap::new()),
             violation_count: AtomicU64::new(0),
             assumptions: Mutex::new(vec![]),
             only_family: std::env::var("VERIF_FAMILY").ok(),
@@ -122,9 +149,22 @@ impl Ctx {
 
     pub fn add_violation(&self, family: &str, case: Value, fail: Fail) {
         self.violation_count.fetch_add(1, Ordering::SeqCst);
+        let key = format!("{}|{}", family, serde_json::to_string(&fail.sig).unwrap());
         let mut v = self.violations.lock().unwrap();
-        if v.len() < MAX_STORED_VIOLATIONS {
-            v.push(Violation { family: family.to_string(), case, fail });
+        let n = v.len();
+        match v.get_mut(&key) {
+            Some(e) => {
+                e.0 += 1;
+                if e.1.len() < MAX_PER_GROUP {
+                    e.1.push(Violation { family: family.to_string(), case, fail });
+                }
+            }
+            None if n < MAX_GROUPS => {
+                v.insert(key, (1, vec![Violation { family: family.to_string(), case, fail }]));
+            }
+            None => {
+                v.entry("OVERFLOW|{}".to_string()).or_insert((0, vec![])).0 += 1;
+            }
         }
     }
 
